@@ -9,10 +9,14 @@
 // detail::staticChunkSize, SmallVector<Iter,64>, PerPoolPerThreadInfo::{isParForRecursive,
 // parForRecurse} + per_thread_info.cpp.
 //
-// Symbolic: n, pool size, ForEachOptions{maxThreads (full uint32_t), wait},
-// per task inline-or-stored, order and time at which stored tasks run (see mock_taskset.h).
+// The configuration space (pool size N, n, wait, maxThreads, caller already inside a parallel-for)
+// is explored as a *tree of scenarios*: a symbolic selector picks one of the template-generated
+// scenarios, each of which calls the real code with literal values (so that chunk boundaries and trip
+// counts are constants for the symbolic executor).  Symbolic per scenario: per task inline-or-stored,
+// order and time at which stored tasks run (see mock_taskset.h); in the *_anymt instances also
+// maxThreads (full uint32_t).
 // Per instance (compile time): iterator category, entry point for_each_n / for_each(first,last),
-// functor passed as lvalue / rvalue.
+// functor passed as lvalue / rvalue, stateful / stateless functor.
 #include <iterator>
 #include <dispenso/for_each.h>
 #include "vf.h"
@@ -21,14 +25,17 @@
 #ifndef VF_MAXN
 #define VF_MAXN 6
 #endif
+#ifndef VF_MINN
+#define VF_MINN 0
+#endif
+#ifndef VF_NPOOL_LO
+#define VF_NPOOL_LO 0
+#endif
 #ifndef VF_NPOOL
 #define VF_NPOOL 2
 #endif
 #ifndef VF_ITER
-#define VF_ITER 0  // 0 pointer (random access), 1 forward, 2 bidirectional
-#endif
-#ifndef VF_REGION
-#define VF_REGION 0  // 0: every configuration except (zero-thread pool, wait=false, parallel path); 1: only that one
+#define VF_ITER 0  // 0 pointer (random access), 1 forward, 2 bidirectional, 3 harness random-access class
 #endif
 #ifndef VF_ENTRY
 #define VF_ENTRY 0  // 0: for_each_n(tasks, first, n, ..), 1: for_each(tasks, first, last, ..)
@@ -36,155 +43,173 @@
 #ifndef VF_RVALUE
 #define VF_RVALUE 0  // functor passed as lvalue (F = L&) or rvalue (F = L)
 #endif
+#ifndef VF_STATEFUL
+#define VF_STATEFUL 0  // functor captures a pointer to its application counter (copied into every closure)
+#endif
 #ifndef VF_DEEP
-#define VF_DEEP 0  // 1: stored tasks may also run between two element applications of another task
+#define VF_DEEP 0  // 1: stored tasks may also run between two element applications of another chunk
+#endif
+#ifndef VF_WAITSEL
+#define VF_WAITSEL 2  // 0: only wait=false, 1: only wait=true, 2: both
+#endif
+#ifndef VF_ANYMT
+#define VF_ANYMT 0  // 1: maxThreads is a symbolic uint32_t (any value) instead of one of kMT[]
+#endif
+#ifndef VF_MTNZ
+#define VF_MTNZ 0  // 1: maxThreads != 0
+#endif
+#ifndef VF_RECUR
+#define VF_RECUR 1  // 1: additionally every configuration with the caller already inside a parallel-for chunk
 #endif
 
-struct Elem {
-  uint8_t cnt;  // ghost: number of applications of the functor to this element
-};
+using Elem = uint8_t;  // ghost: number of applications of the functor to this element
 
 constexpr int kLen = VF_MAXN + 1;  // one element beyond the largest n: must never be touched
+static Elem g_cnt[kLen + 1];
+static int g_applied;  // ghost: total number of functor applications
+static MockTaskSet* g_ts;
 
-// The list iterators are index-linked (slot -> next/prev slot tables) rather than pointer-linked: the
-// iterator value the library copies into its boundary vector and task closures is then a plain
-// integer, which keeps the lifted C typed (no pointer <-> integer laundering through byte buffers).
-constexpr int kEnd = kLen;  // sentinel slot == end() of the full list
-static Elem g_elems[kLen + 1];
-static uint8_t g_next[kLen + 1];
-static uint8_t g_prev[kLen + 1];
-
-struct FwdIt {
-  using iterator_category = std::forward_iterator_tag;
+// Harness iterators are index based: the value the library copies into its boundary vector and task
+// closures is a small integer, not a pointer.
+template <typename Tag>
+struct IdxIt {
+  using iterator_category = Tag;
   using value_type = Elem;
   using difference_type = std::ptrdiff_t;
   using pointer = Elem*;
   using reference = Elem&;
-  int32_t slot;
+  int32_t idx;
   Elem& operator*() const {
-    return g_elems[slot];
+    return g_cnt[idx];
   }
-  FwdIt& operator++() {
-    slot = g_next[slot];
+  IdxIt& operator++() {
+    ++idx;
     return *this;
   }
-  FwdIt operator++(int) {
-    FwdIt t = *this;
-    slot = g_next[slot];
+  IdxIt operator++(int) {
+    IdxIt t = *this;
+    ++idx;
     return t;
   }
-  bool operator==(const FwdIt& o) const {
-    return slot == o.slot;
+  bool operator==(const IdxIt& o) const {
+    return idx == o.idx;
   }
-  bool operator!=(const FwdIt& o) const {
-    return slot != o.slot;
+  bool operator!=(const IdxIt& o) const {
+    return idx != o.idx;
   }
 };
+using FwdIt = IdxIt<std::forward_iterator_tag>;
 
-struct BidiIt {
-  using iterator_category = std::bidirectional_iterator_tag;
-  using value_type = Elem;
-  using difference_type = std::ptrdiff_t;
-  using pointer = Elem*;
-  using reference = Elem&;
-  int32_t slot;
-  Elem& operator*() const {
-    return g_elems[slot];
-  }
+struct BidiIt : IdxIt<std::bidirectional_iterator_tag> {
   BidiIt& operator++() {
-    slot = g_next[slot];
+    ++idx;
     return *this;
   }
   BidiIt operator++(int) {
     BidiIt t = *this;
-    slot = g_next[slot];
+    ++idx;
     return t;
   }
   BidiIt& operator--() {
-    slot = g_prev[slot];
+    --idx;
     return *this;
   }
   BidiIt operator--(int) {
     BidiIt t = *this;
-    slot = g_prev[slot];
+    --idx;
     return t;
-  }
-  bool operator==(const BidiIt& o) const {
-    return slot == o.slot;
-  }
-  bool operator!=(const BidiIt& o) const {
-    return slot != o.slot;
   }
 };
 
-static MockTaskSet* g_ts;
-static int g_applied;  // ghost: total number of functor applications
-static Elem g_arr[kLen];
-
-// logical position i of the list lives in slot kLen - 1 - i (not in memory order); position kLen is
-// the sentinel slot kEnd
-static int slotAt(int i) {
-  return i >= kLen ? kEnd : kLen - 1 - i;
-}
-static void buildList() {
-  for (int i = 0; i <= kLen; ++i) {
-    int sl = slotAt(i);
-    g_elems[sl].cnt = 0;
-    g_next[sl] = (uint8_t)(i < kLen ? slotAt(i + 1) : kEnd);
-    g_prev[sl] = (uint8_t)(i > 0 ? slotAt(i - 1) : kEnd);
+struct RandIt : IdxIt<std::random_access_iterator_tag> {
+  RandIt& operator++() {
+    ++idx;
+    return *this;
   }
-}
+  RandIt& operator--() {
+    --idx;
+    return *this;
+  }
+  RandIt& operator+=(std::ptrdiff_t d) {
+    idx += (int32_t)d;
+    return *this;
+  }
+  RandIt& operator-=(std::ptrdiff_t d) {
+    idx -= (int32_t)d;
+    return *this;
+  }
+  RandIt operator+(std::ptrdiff_t d) const {
+    RandIt t = *this;
+    t.idx += (int32_t)d;
+    return t;
+  }
+  RandIt operator-(std::ptrdiff_t d) const {
+    RandIt t = *this;
+    t.idx -= (int32_t)d;
+    return t;
+  }
+  std::ptrdiff_t operator-(const RandIt& o) const {
+    return idx - o.idx;
+  }
+  Elem& operator[](std::ptrdiff_t d) const {
+    return g_cnt[idx + d];
+  }
+  bool operator<(const RandIt& o) const {
+    return idx < o.idx;
+  }
+};
 
 #if VF_ITER == 0
 using It = Elem*;
 static It iterAt(int i) {
-  return &g_arr[i];
+  return &g_cnt[i];
 }
-static uint8_t countAt(int i) {
-  return g_arr[i].cnt;
-}
-#else
-#if VF_ITER == 1
+#elif VF_ITER == 1
 using It = FwdIt;
-#else
-using It = BidiIt;
-#endif
 static It iterAt(int i) {
-  return It{slotAt(i)};
+  It it;
+  it.idx = i;
+  return it;
 }
-static uint8_t countAt(int i) {
-  return g_elems[slotAt(i)].cnt;
+#elif VF_ITER == 2
+using It = BidiIt;
+static It iterAt(int i) {
+  It it;
+  it.idx = i;
+  return it;
+}
+#else
+using It = RandIt;
+static It iterAt(int i) {
+  It it;
+  it.idx = i;
+  return it;
 }
 #endif
 
-VF_NOINLINE static void runConfig(uint32_t N, bool wait, uint32_t n, uint32_t maxThreads) {
-  for (int i = 0; i < kLen; ++i) {
-    g_arr[i].cnt = 0;
+VF_NOINLINE static void runConfig(uint32_t N, bool wait, uint32_t n, uint32_t maxThreads, bool recur) {
+  for (int i = 0; i <= kLen; ++i) {
+    g_cnt[i] = 0;
   }
-  buildList();
-
   MockTaskSet ts(static_cast<ssize_t>(N));
   g_ts = &ts;
   g_applied = 0;
-#if VF_ITER == 0
+#if VF_STATEFUL
   // stateful functor (captures a pointer that the library copies into every task closure)
   int* applied = &g_applied;
   auto f = [applied](Elem& e) {
 #if VF_DEEP
     g_ts->pickupInFunctor();
 #endif
-    ++e.cnt;
+    ++e;
     ++*applied;
   };
 #else
-  // stateless functor: the task closures of the list instances then hold integers only (a pointer
-  // copied through the closure's byte representation makes every later store through it a store to
-  // "any object" in the lifted C, which is what made these instances run out of memory)
   auto f = [](Elem& e) {
 #if VF_DEEP
     g_ts->pickupInFunctor();
 #endif
-    ++e.cnt;
+    ++e;
     ++g_applied;
   };
 #endif
@@ -193,48 +218,107 @@ VF_NOINLINE static void runConfig(uint32_t N, bool wait, uint32_t n, uint32_t ma
   opts.maxThreads = maxThreads;
   opts.wait = wait;
 
-#if VF_ENTRY == 1 && VF_RVALUE == 1
-  dispenso::for_each(ts, iterAt(0), iterAt((int)n), std::move(f), opts);
-#elif VF_ENTRY == 1
-  dispenso::for_each(ts, iterAt(0), iterAt((int)n), f, opts);
-#elif VF_RVALUE == 1
-  dispenso::for_each_n(ts, iterAt(0), n, std::move(f), opts);
-#else
-  dispenso::for_each_n(ts, iterAt(0), n, f, opts);
-#endif
+  {
+    // recur: the caller is itself a chunk of an enclosing parallel-for on the same pool (what the
+    // library's own chunk closures establish through parForRecurse()) => serial execution expected
+    dispenso::detail::PerPoolPerThreadInfo::registerPool(recur ? &ts.pool() : nullptr, nullptr, -1);
+    int& level = dispenso::detail::PerPoolPerThreadInfo::info().parForRecursionLevel;
+    level = recur ? 1 : 0;
 
+#if VF_ENTRY == 1 && VF_RVALUE == 1
+    dispenso::for_each(ts, iterAt(0), iterAt((int)n), std::move(f), opts);
+#elif VF_ENTRY == 1
+    dispenso::for_each(ts, iterAt(0), iterAt((int)n), f, opts);
+#elif VF_RVALUE == 1
+    dispenso::for_each_n(ts, iterAt(0), n, std::move(f), opts);
+#else
+    dispenso::for_each_n(ts, iterAt(0), n, f, opts);
+#endif
+    level = 0;
+    dispenso::detail::PerPoolPerThreadInfo::registerPool(nullptr, nullptr, -1);
+  }
+
+  if (maxThreads <= 1) {
+    // documented: "Setting maxThreads to zero or one will result in serial operation"
+    vf_check(ts.stored == 0 || !wait, "serial operation: with wait=true nothing is left to other threads");
+  }
   if (!wait) {
-    // nothing may have been applied twice so far; the rest finishes in the set's wait()
-    for (int i = 0; i < kLen; ++i) {
-      vf_check(countAt(i) <= 1, "wait=false: no element has been applied more than once at return");
+    if (ts.numPending() > 0) {
+      vf_reach("wait=false: call returned with chunks still queued");
+    }
+    for (int i = 0; i <= kLen; ++i) {
+      vf_check(g_cnt[i] <= 1, "wait=false: no element has been applied more than once at return");
     }
     ts.wait();
   } else {
-    vf_check(ts.nq == 0, "wait=true: no task of the call is still pending when it returns");
-  }
-  for (int i = 0; i < kLen; ++i) {
-    if (i < (int)n) {
-      vf_check(countAt(i) == 1, "each of the first n elements is applied exactly once");
-    } else {
-      vf_check(countAt(i) == 0, "no element beyond the first n is touched");
+    vf_check(ts.numPending() == 0, "wait=true: no task of the call is still pending when it returns");
+    if (ts.stored > 0) {
+      vf_reach("wait=true: chunks were queued and ran on other threads");
     }
+  }
+  for (int i = 0; i <= kLen; ++i) {
+    vf_check(i >= (int)n || g_cnt[i] == 1, "each of the first n elements is applied exactly once");
+  }
+  for (int i = 0; i <= kLen; ++i) {
+    vf_check(i < (int)n || g_cnt[i] == 0, "no element beyond the first n is touched");
   }
   vf_check(g_applied == (int)n, "the functor ran n times in total");
   vf_check(ts.executed == ts.scheduled, "every closure handed to the task set ran exactly once");
   g_ts = nullptr;
 }
 
-extern "C" void vf_main() {
-  uint32_t N = vf_range_u32(0, VF_NPOOL);
-  uint32_t n = vf_range_u32(0, VF_MAXN);
-  bool wait = vf_nondet_bool();
-  uint32_t maxThreads = vf_nondet_u32();
-  // for_each.h:188-192: numThreads = min(N + wait, max(int32(maxThreads), 1), n)
-  bool zeroPoolNoWait = N == 0 && !wait && n > 0 && maxThreads != 0;
-#if VF_REGION == 0
-  vf_assume(!zeroPoolNoWait);
+// ---- scenario tree ---------------------------------------------------------------------------
+constexpr uint32_t kMT[] = {0u, 1u, 2u, 0x7fffffffu, 0xffffffffu};
+#if VF_ANYMT
+constexpr int kNumMT = 1;
+constexpr int kMT0 = 0;
 #else
-  vf_assume(zeroPoolNoWait);
+constexpr int kMT0 = VF_MTNZ ? 1 : 0;  // VF_MTNZ: only the non-zero values
+constexpr int kNumMT = 5 - kMT0;
 #endif
-  runConfig(N, wait, n, maxThreads);
+constexpr int kNumN = VF_MAXN - VF_MINN + 1;
+constexpr int kNumPool = VF_NPOOL - VF_NPOOL_LO + 1;
+constexpr int kNumWait = VF_WAITSEL == 2 ? 2 : 1;
+constexpr int kNumRecur = VF_RECUR ? 2 : 1;
+constexpr int kTotal = kNumN * kNumPool * kNumWait * kNumMT * kNumRecur;
+
+template <int K>
+VF_NOINLINE static void scenario(uint32_t anyMT) {
+  constexpr int n = VF_MINN + K % kNumN;
+  constexpr int k1 = K / kNumN;
+  constexpr int N = VF_NPOOL_LO + k1 % kNumPool;
+  constexpr int k2 = k1 / kNumPool;
+  constexpr bool wait = VF_WAITSEL == 2 ? (k2 % kNumWait) == 1 : VF_WAITSEL == 1;
+  constexpr int k3 = k2 / kNumWait;
+  constexpr int mt = kMT0 + k3 % kNumMT;
+  constexpr int k4 = k3 / kNumMT;
+  constexpr bool recur = k4 == 1;
+  runConfig((uint32_t)N, wait, (uint32_t)n, VF_ANYMT ? anyMT : kMT[mt], recur);
+}
+
+template <int K>
+struct Tree {
+  static void go(uint32_t sel, uint32_t anyMT) {
+    if (sel == (uint32_t)K) {
+      scenario<K>(anyMT);
+    } else {
+      Tree<K - 1>::go(sel, anyMT);
+    }
+  }
+};
+template <>
+struct Tree<-1> {
+  static void go(uint32_t, uint32_t) {}
+};
+
+extern "C" void vf_main() {
+  uint32_t sel = vf_range_u32(0, kTotal - 1);
+  uint32_t anyMT = 0;
+#if VF_ANYMT
+  anyMT = vf_nondet_u32();
+#if VF_MTNZ
+  vf_assume(anyMT != 0);
+#endif
+#endif
+  Tree<kTotal - 1>::go(sel, anyMT);
 }
